@@ -30,6 +30,8 @@ type SwapV2 struct {
 	pairs         map[PairKey]*PairV2
 	dirties       map[PairKey]struct{}
 	dirtiesOrders map[PairKey]struct{}
+	// pairs whose orders were written by Commit and whose in-memory change sets are dropped by SetImmutableTree
+	committedOrders []PairKey
 
 	muNextID    sync.Mutex
 	nextID      uint32
@@ -479,7 +481,30 @@ func (s *SwapV2) Commit(db *iavl.MutableTree, version int64) error {
 			db.Set(pathOrderID, pairOrderBytes)
 		}
 
-		// the orders on disk change: drop the sorted lists and the ids loaded from disk
+		// the sorted lists and the sets of orders changed since the last commit stay as they are until the
+		// committed version can be read (SetImmutableTree): a reader that walks the book in between still gets
+		// the orders on disk of the previous version merged with these changes
+		s.committedOrders = append(s.committedOrders, key)
+
+		pair.lockOrders.Unlock()
+	}
+	s.dirtiesOrders = map[PairKey]struct{}{}
+	return nil
+}
+
+func (s *SwapV2) SetImmutableTree(immutableTree *iavl.ImmutableTree) {
+	s.db.Store(immutableTree)
+
+	// the orders on disk have changed: drop the sorted lists, the ids loaded from disk and the change sets
+	s.muPairs.RLock()
+	defer s.muPairs.RUnlock()
+	for _, key := range s.committedOrders {
+		pair, ok := s.pair(key)
+		if !ok || pair == nil {
+			continue
+		}
+		pair.lockOrders.Lock()
+
 		pair.sellOrders.ids, pair.buyOrders.ids = nil, nil
 		*pair.loadedSellOrders, *pair.loadedBuyOrders = limits{}, limits{}
 
@@ -505,12 +530,7 @@ func (s *SwapV2) Commit(db *iavl.MutableTree, version int64) error {
 
 		pair.lockOrders.Unlock()
 	}
-	s.dirtiesOrders = map[PairKey]struct{}{}
-	return nil
-}
-
-func (s *SwapV2) SetImmutableTree(immutableTree *iavl.ImmutableTree) {
-	s.db.Store(immutableTree)
+	s.committedOrders = nil
 }
 
 func (s *SwapV2) SwapPoolExist(coin0, coin1 types.CoinID) bool {
